@@ -267,6 +267,6 @@ SUBS = [
 
 MANIFEST = {
     "technique": "property-based testing with four independent reference emitters (differential against the formats' definitions) + the shipped 1299-file corpus against an independent XML reading and Betty's statistics files",
-    "level_text": "Generated reference models are rendered by independent emitters using each format's syntactic freedom and must be read as exactly that model (or rejected where unrepresentable); every corpus file is read and compared with an independent pull-parser reading and twelve independently recorded statistics. Sampling for the generated part, complete for the corpus (thorough).",
+    "level_text": "Generated reference models are rendered by independent emitters using each format's syntactic freedom and must be read as exactly that model (or rejected where unrepresentable); every corpus file is read and compared with an independent pull-parser reading and twelve independently recorded statistics. Sampling for the generated part, complete for the corpus (thorough). Also: documents of 100-500 features for all four formats, FaMa constraints naming undeclared features (must be rejected). A sample of every sub-check additionally runs in a `python -OO` child with the root logger at DEBUG.",
     "level_note": "Trusted: vf/emit_formats.py and vf/fama.py (my transcription of the formats), the Betty .statistics files, raw afmparser as validity filter, vf/logic.py.",
 }
